@@ -253,10 +253,29 @@ func Program(n *Node) string {
 		ctr++
 		body(&sb, n, 0, &ctr)
 		sb.WriteString(";build@0")
+	case "struct":
+		sb.WriteString("vany " + hx.Hex(EncStruct(n.Data)) + ";vbuild")
 	default:
 		sb.WriteString("v " + n.Kind + " " + scalarArg(n) + ";vbuild")
 	}
 	return sb.String()
+}
+
+// EncStruct is the pinned layout of a struct value: the field bytes (opaque without the schema),
+// their size as a reverse compact varint, the type code 90. Kind "struct" carries such a value into
+// a tree through Any (the writer has no struct API of its own; generated code writes structs raw).
+func EncStruct(data []byte) []byte {
+	out := append([]byte{}, data...)
+	n := len(data)
+	switch {
+	case n <= 0xfc:
+		out = append(out, byte(n))
+	case n <= 0xffff:
+		out = append(out, byte(n>>8), byte(n), 0xfd)
+	default:
+		out = append(out, byte(n>>24), byte(n>>16), byte(n>>8), byte(n), 0xfe)
+	}
+	return append(out, 90)
 }
 
 func body(sb *strings.Builder, n *Node, h int, ctr *int) {
@@ -275,6 +294,8 @@ func body(sb *strings.Builder, n *Node, h int, ctr *int) {
 				*ctr++
 				body(sb, f, c, ctr)
 				fmt.Fprintf(sb, ";end@%d", c)
+			case "struct":
+				fmt.Fprintf(sb, ";fany@%d %d %s", h, tag, hx.Hex(EncStruct(f.Data)))
 			default:
 				fmt.Fprintf(sb, ";f@%d %d %s %s", h, tag, f.Kind, scalarArg(f))
 			}
@@ -292,6 +313,8 @@ func body(sb *strings.Builder, n *Node, h int, ctr *int) {
 				*ctr++
 				body(sb, e, c, ctr)
 				fmt.Fprintf(sb, ";end@%d", c)
+			case "struct":
+				fmt.Fprintf(sb, ";eany@%d %s", h, hx.Hex(EncStruct(e.Data)))
 			default:
 				fmt.Fprintf(sb, ";e@%d %s %s", h, e.Kind, scalarArg(e))
 			}
@@ -311,6 +334,8 @@ func Canon(n *Node) string {
 			return "T"
 		}
 		return "F"
+	case "struct":
+		return fmt.Sprintf("S:%d", len(n.Data))
 	case "byte":
 		return fmt.Sprintf("by:%d", n.U)
 	case "i16", "i32", "i64":
